@@ -158,6 +158,10 @@ func genDecCase(r *rand.Rand, big bool) ([]byte, []string) {
 				want = append(want, map[int]string{0: "uint", 4: "arr", 5: "map"}[mt])
 			}
 		}
+		if r.Intn(9) == 0 { // a tag (major type 6) in front of an otherwise valid item: tags are not part of the subset
+			tags := [][]byte{{0xc0}, {0xc1}, {0xd8, 0x18}, {0xd9, 0xd9, 0xf7}, {0xd9, 0xd9, 0xf6}, {0xda, 0, 0, 0xd9, 0xf7}, {0xdb, 0, 0, 0, 0, 0, 0, 0xd9, 0xf7}, {0xd8, 0xf7}}
+			in = append(append([]byte{}, tags[r.Intn(len(tags))]...), in...)
+		}
 		switch r.Intn(6) {
 		case 0: // truncate
 			if len(in) > 0 {
